@@ -40,7 +40,7 @@ fn parse_single_line_description(
         .ok()
 }
 // https://spec.graphql.org/June2018/#sec-String-Value
-fn clean_block_string_literal(source: &str) -> String {
+pub(crate) fn clean_block_string_literal(source: &str) -> String {
     let inner = &source[3..source.len() - 3];
     let common_indent = get_common_indent(inner);
 
